@@ -446,6 +446,20 @@ func applySetUpdates(dir string, opts GlobalOptions, id string, updates map[stri
 			}
 		}
 
+		// An epic assignment must name a live epic (or "" to unassign).
+		if epicID, hasEpic := updates["epic"]; hasEpic && epicID != "" {
+			if _, ok := graph.Tombstones[epicID]; ok {
+				return prunedErr(epicID)
+			}
+			epic, ok := graph.Tasks[epicID]
+			if !ok {
+				return fmt.Errorf("unknown epic id %s", epicID)
+			}
+			if !epic.IsEpic {
+				return fmt.Errorf("task %s is not an epic", epicID)
+			}
+		}
+
 		now := time.Now().UTC()
 
 		// Build events using pure function, passing I/O-dependent body resolver
